@@ -153,7 +153,7 @@ Output file is an unaligned set of sequences in fasta.
 		phasedcodonseqs := align.NewSeqBag(align.UNKNOWN)
 		phasedseqsaa := align.NewSeqBag(align.UNKNOWN)
 
-		for p := range phased {
+		for p := range inputOrder(phased, inseqs) {
 			var stops []int
 			if p.Err != nil {
 				err = p.Err
